@@ -1,40 +1,689 @@
 package main
 
+// C06: proof-number solver verdicts agree with the game-theoretic truth.
+//
+// CASE pn;<enc position>;<maxnodes> <preserve> <maxdepth> | <verdict> <move> | <proof> <disproof> <depth> <nodes> <proved> <disproved> <dropped> <expanded> <maxdepth>
+// CASE dfpn;<enc position>;<table entries> <attacker N|W|B> | <verdict> <move> | <phi> <delta> <work> <repetition> <terminal> <solved> <hits> <miss>
+//
+// Oracle (oracle_retro.go): exact retrograde solution of the whole reachable game graph for
+// small configurations, bounded exhaustive search (one-sided) for larger positions.
+// Failure classes: proven-but-not-won, disproven-but-won, proven-move-loses (prefixed with
+// attacker-not-mover- when the configured DFPN attacker is not the side to move), solver-panic.
+
 import (
+	"context"
+	"encoding/json"
 	"fmt"
+	"io"
+	"log"
+	"math/rand"
 	"os"
 	"strconv"
+	"strings"
+	"sync"
 	"time"
 
+	"github.com/nelhage/taktician/prove"
+	"github.com/nelhage/taktician/ptn"
 	"github.com/nelhage/taktician/tak"
 )
 
 func init() { register("C06", runC06) }
 
-func runC06(c *ctx) {
-	if c.tier == "probe" {
-		sz, _ := strconv.Atoi(c.args[0])
-		pc, _ := strconv.Atoi(c.args[1])
-		cp, _ := strconv.Atoi(c.args[2])
-		t0 := time.Now()
-		g := buildRetro(tak.New(tak.Config{Size: sz, Pieces: pc, Capstones: cp}), 50000000)
-		if g == nil {
-			fmt.Fprintln(os.Stderr, "too big")
+const c06EntrySize = 32 // unsafe.Sizeof(prove.entry{}): the table has TableMem/32 slots
+
+type c06job struct {
+	kind string // "pn" | "dfpn"
+	root *tak.Position
+	// pn
+	maxNodes uint64
+	preserve bool
+	pn2      bool
+	maxDepth int
+	// dfpn
+	entries  int
+	attacker tak.Color
+	// oracle
+	g       *retroGraph // nil: bounded exhaustive search
+	gi      int
+	modelOK bool        // eligible for the model comparison (cost permitting)
+
+	// results
+	l1, l2 string
+	out   []string
+	stats map[string]int64
+}
+
+func verdictStr(e prove.Evaluation) string {
+	switch e {
+	case prove.EvalTrue:
+		return "proven"
+	case prove.EvalFalse:
+		return "disproven"
+	}
+	return "unknown"
+}
+
+func attStr(c tak.Color) string {
+	switch c {
+	case tak.White:
+		return "W"
+	case tak.Black:
+		return "B"
+	}
+	return "N"
+}
+
+func (j *c06job) input() string {
+	if j.kind == "pn" {
+		s := fmt.Sprintf("pn;%s;%d %d %d", enc(j.root), j.maxNodes, b2i(j.preserve), j.maxDepth)
+		if j.pn2 {
+			s += " pn2"
+		}
+		return s
+	}
+	return fmt.Sprintf("dfpn;%s;%d %s", enc(j.root), j.entries, attStr(j.attacker))
+}
+
+// model cost limits: PN expansions / DFPN work above which a run is judged by the oracle only
+const (
+	c06MaxModelExpanded = 400
+	c06MaxModelWork     = 60
+)
+
+func (j *c06job) run() {
+	j.stats = map[string]int64{}
+	var res prove.ProofResult
+	var l2 string
+	var attacker tak.Color
+	costOK := false
+	panicked, msg := safely(func() {
+		if j.kind == "pn" {
+			pr := prove.New(prove.Config{MaxNodes: j.maxNodes, PreserveSolved: j.preserve, PN2: j.pn2, MaxDepth: j.maxDepth})
+			r, st := pr.Prove(context.Background(), j.root)
+			res = r
+			attacker = j.root.ToMove()
+			l2 = fmt.Sprintf("%d %d %d %d %d %d %d %d %d", r.Proof, r.Disproof, r.Depth, st.Nodes, st.Proved, st.Disproved, st.Dropped, st.Expanded, st.MaxDepth)
+			costOK = st.Expanded <= c06MaxModelExpanded
+			j.stats["pn_expanded_total"] += int64(st.Expanded)
+		} else {
+			d := prove.NewDFPN(&prove.DFPNConfig{Attacker: j.attacker, TableMem: int64(j.entries) * c06EntrySize})
+			r, st := d.Prove(j.root)
+			res = r
+			attacker = j.attacker
+			if attacker == tak.NoColor {
+				attacker = j.root.ToMove()
+			}
+			l2 = fmt.Sprintf("%d %d %d %d %d %d %d %d", r.Proof, r.Disproof, st.Work, st.Repetition, st.Terminal, st.Solved, st.Hits, st.Miss)
+			costOK = st.Work <= c06MaxModelWork
+			j.stats["dfpn_work_total"] += int64(st.Work)
+			if st.Repetition > 0 {
+				j.stats["dfpn_runs_with_repetition"]++
+			}
+		}
+	})
+	in := j.input()
+	if panicked {
+		j.out = append(j.out, fmt.Sprintf("ORACLE-FAIL solver-panic | %s | panic: %s | a verdict", in, strings.ReplaceAll(msg, "|", "/")))
+		return
+	}
+	v := verdictStr(res.Result)
+	j.stats["verdict_"+j.kind+"_"+v]++
+	l1 := v + " " + encMove(res.Move)
+	j.l1, j.l2 = l1, l2
+	if j.modelOK && costOK {
+		j.out = append(j.out, fmt.Sprintf("CASE %s | %s | %s", in, l1, l2))
+	} else {
+		j.stats["oracle_only_runs"]++
+	}
+	j.judge(in, res, attacker, l1)
+}
+
+// judge: the property, evaluated directly.
+func (j *c06job) judge(in string, res prove.ProofResult, attacker tak.Color, l1 string) {
+	fail := func(class, did, want string) {
+		if attacker != j.root.ToMove() {
+			// own classes: the verdict is then reported from the mover's side (see the C06 finding)
+			class = "attacker-not-mover-" + class
+		}
+		j.out = append(j.out, fmt.Sprintf("ORACLE-FAIL %s | %s | %s | %s", class, in, did, want))
+	}
+	defender := attacker.Flip()
+	if j.g != nil {
+		win, dist, ok := j.g.wins(j.root, attacker)
+		if !ok {
+			j.stats["oracle_root_not_in_graph"]++
 			return
 		}
-		mx := [2]int32{}
-		in := [2]int{}
-		for a := 0; a < 2; a++ {
-			for _, d := range g.dist[a] {
-				if d >= 0 {
-					in[a]++
+		j.stats["oracle_exact"]++
+		if win {
+			j.stats["truth_won"]++
+		} else {
+			j.stats["truth_not_won"]++
+		}
+		switch res.Result {
+		case prove.EvalTrue:
+			if !win {
+				fail("proven-but-not-won", l1, fmt.Sprintf("attacker %s has no forced win (retrograde solution of %d positions)", attStr(attacker), len(j.g.term)))
+				return
+			}
+			if res.Move.Type != 0 {
+				q, err := j.root.Move(res.Move)
+				if err != nil {
+					fail("proven-move-loses", l1, "returned move is illegal: "+err.Error())
+					return
 				}
-				if d > mx[a] {
-					mx[a] = d
+				w2, _, ok2 := j.g.wins(q, attacker)
+				if ok2 && !w2 {
+					fail("proven-move-loses", l1, fmt.Sprintf("after the returned move attacker %s has no forced win any more", attStr(attacker)))
+				}
+				j.stats["proven_move_checked"]++
+			} else {
+				j.stats["proven_without_move"]++
+			}
+		case prove.EvalFalse:
+			if j.kind == "pn" && j.maxDepth > 0 {
+				// depth-limited: the claim is "no win within MaxDepth plies"
+				if win && int(dist) <= j.maxDepth {
+					fail("disproven-but-won", l1, fmt.Sprintf("attacker %s wins within %d plies <= MaxDepth %d", attStr(attacker), dist, j.maxDepth))
+				}
+				j.stats["disproven_depth_limited"]++
+			} else if win {
+				fail("disproven-but-won", l1, fmt.Sprintf("attacker %s has a forced win in %d plies (retrograde)", attStr(attacker), dist))
+			}
+		}
+		return
+	}
+	// one-sided: bounded exhaustive search
+	const depth = 3
+	budget := 400000
+	switch res.Result {
+	case prove.EvalTrue:
+		if w, c := forcedWin(j.root, defender, depth, &budget); c && w {
+			fail("proven-but-not-won", l1, fmt.Sprintf("defender %s wins by force within %d plies", attStr(defender), depth))
+			return
+		}
+		// a PN proof tree of depth D is a win within D plies
+		if j.kind == "pn" && res.Depth <= 5 {
+			b2 := 3000000
+			if w, c := forcedWin(j.root, attacker, int(res.Depth), &b2); c {
+				j.stats["bounded_proven_confirmed_exactly"]++
+				if !w {
+					fail("proven-but-not-won", l1, fmt.Sprintf("no forced win for %s within the reported depth %d (exhaustive)", attStr(attacker), res.Depth))
+					return
 				}
 			}
 		}
-		fmt.Fprintf(os.Stderr, "size %d pieces %d caps %d: nodes %d edges %d  attractor W %d (max %d) B %d (max %d) root W %d B %d  %v\n",
-			sz, pc, cp, len(g.term), g.edges, in[0], mx[0], in[1], mx[1], g.dist[0][0], g.dist[1][0], time.Since(t0))
+		if res.Move.Type != 0 {
+			q, err := j.root.Move(res.Move)
+			if err != nil {
+				fail("proven-move-loses", l1, "returned move is illegal: "+err.Error())
+				return
+			}
+			b3 := 400000
+			if w, c := forcedWin(q, defender, depth-1, &b3); c && w {
+				fail("proven-move-loses", l1, fmt.Sprintf("after the returned move defender %s wins by force within %d plies", attStr(defender), depth-1))
+			}
+		}
+		j.stats["bounded_proven_checked"]++
+	case prove.EvalFalse:
+		d := depth
+		if j.kind == "pn" && j.maxDepth > 0 && j.maxDepth < d {
+			d = j.maxDepth
+		}
+		if w, c := forcedWin(j.root, attacker, d, &budget); c && w {
+			fail("disproven-but-won", l1, fmt.Sprintf("attacker %s wins by force within %d plies (exhaustive)", attStr(attacker), d))
+		}
+		j.stats["bounded_disproven_checked"]++
 	}
+}
+
+// ---------- generation ----------
+
+type c06graphSpec struct {
+	cfg                     tak.Config
+	playout, sampled, model int
+}
+
+func c06roots(r *rand.Rand, cfg tak.Config, n int, maxPlies int) []*tak.Position {
+	var out []*tak.Position
+	for len(out) < n {
+		plies := 2 + r.Intn(maxPlies)
+		ps, _ := randomGame(r, cfg, plies, -1, false)
+		p := ps[len(ps)-1]
+		if over, _ := p.GameOver(); over {
+			if len(ps) < 2 {
+				continue
+			}
+			p = ps[len(ps)-2]
+			if r.Intn(3) == 0 && len(ps) >= 3 {
+				p = ps[len(ps)-3]
+			}
+		}
+		out = append(out, p)
+	}
+	return out
+}
+
+func (c *ctx) c06pnJob(root *tak.Position, g *retroGraph) *c06job {
+	r := c.r
+	j := &c06job{kind: "pn", root: root, g: g, modelOK: true}
+	switch r.Intn(5) {
+	case 0:
+		j.maxNodes = 0
+	case 1:
+		j.maxNodes = uint64(5 + r.Intn(60))
+	case 2:
+		j.maxNodes = uint64(100 + r.Intn(2000))
+	default:
+		j.maxNodes = 20000
+	}
+	j.preserve = r.Intn(2) == 0
+	if r.Intn(3) == 0 {
+		j.maxDepth = 1 + r.Intn(8)
+	}
+	if r.Intn(4) == 0 {
+		j.pn2 = true
+		j.modelOK = false
+	}
+	return j
+}
+
+func (c *ctx) c06dfpnJob(root *tak.Position, g *retroGraph) *c06job {
+	r := c.r
+	j := &c06job{kind: "dfpn", root: root, g: g, modelOK: true}
+	j.entries = []int{1, 2, 4, 8, 16, 64, 1024, 1 << 16}[r.Intn(8)]
+	switch r.Intn(4) {
+	case 0:
+		j.attacker = tak.White
+	case 1:
+		j.attacker = tak.Black
+	}
+	return j
+}
+
+func runC06(c *ctx) {
+	log.SetOutput(io.Discard) // the PN search logs progress lines
+	switch c.tier {
+	case "probe":
+		c06probe(c)
+		return
+	case "replay":
+		c06replay(c)
+		return
+	case "tps": // runimpl C06 tps <seed> "<tps>" pn <maxnodes> <preserve> <maxdepth> [pn2] | dfpn <entries> <N|W|B>
+		p, err := ptn.ParseTPS(c.args[0])
+		if err != nil {
+			fmt.Fprintln(os.Stderr, err)
+			os.Exit(2)
+		}
+		j, err := c06parse(c.args[1] + ";" + enc(p) + ";" + strings.Join(c.args[2:], " "))
+		if err != nil {
+			fmt.Fprintln(os.Stderr, err)
+			os.Exit(2)
+		}
+		j.root = p // keep the reserves of the TPS configuration
+		c06single(c, j)
+		return
+	}
+	var jobs []*c06job
+	// roots: playout = positions from random legal games, sampled = drawn from the solved graph itself;
+	// model = how many of the roots (first the playout ones) are also given to the extracted model
+	specs := []c06graphSpec{
+		{tak.Config{Size: 3, Pieces: 3}, 500, 700, 200},
+		{tak.Config{Size: 3, Pieces: 3, BlackWinsTies: true}, 200, 300, 60},
+		{tak.Config{Size: 3, Pieces: 2, Capstones: 1}, 500, 700, 200},
+		{tak.Config{Size: 3, Pieces: 2}, 60, 60, 40},
+		{tak.Config{Size: 4, Pieces: 2}, 200, 300, 100},
+		{tak.Config{Size: 4, Pieces: 1, Capstones: 1}, 100, 100, 40},
+	}
+	if !c.quick() {
+		specs = append(specs,
+			c06graphSpec{tak.Config{Size: 4, Pieces: 3}, 300, 500, 20},
+			c06graphSpec{tak.Config{Size: 4, Pieces: 2, Capstones: 1}, 300, 500, 20},
+			c06graphSpec{tak.Config{Size: 3, Pieces: 4}, 300, 500, 20},
+		)
+	}
+	graphs := make([]*retroGraph, len(specs))
+	var wg sync.WaitGroup
+	t0 := time.Now()
+	for i := range specs {
+		wg.Add(1)
+		go func(i int) {
+			defer wg.Done()
+			graphs[i] = buildRetro(tak.New(specs[i].cfg), 40000000, 37)
+		}(i)
+	}
+	wg.Wait()
+	for i, g := range graphs {
+		if g == nil {
+			fmt.Fprintf(os.Stderr, "c06: graph %d too large\n", i)
+			os.Exit(3)
+		}
+		cf := specs[i].cfg
+		c.stat(fmt.Sprintf("graph_%dx%d_p%d_c%d_bwt%d_positions", cf.Size, cf.Size, cf.Pieces, cf.Capstones, b2i(cf.BlackWinsTies)), int64(len(g.term)))
+	}
+	c.stat("graph_build_ms", int64(time.Since(t0)/time.Millisecond))
+	for i, s := range specs {
+		g := graphs[i]
+		roots := c06roots(c.r, s.cfg, s.playout*c.scale, 12)
+		for k := 0; k < s.sampled*c.scale && len(g.sample) > 0; k++ {
+			roots = append(roots, g.sample[c.r.Intn(len(g.sample))])
+		}
+		c.stat("roots_playout", int64(s.playout*c.scale))
+		c.stat("roots_sampled_from_graph", int64(len(roots)-s.playout*c.scale))
+		for ri, root := range roots {
+			model := ri < s.model*c.scale
+			k := 1 + c.r.Intn(2)
+			for x := 0; x < k; x++ {
+				j := c.c06pnJob(root, g)
+				j.modelOK = j.modelOK && model
+				jobs = append(jobs, j)
+			}
+			k = 1 + c.r.Intn(2)
+			for x := 0; x < k; x++ {
+				j := c.c06dfpnJob(root, g)
+				j.modelOK = j.modelOK && model
+				jobs = append(jobs, j)
+			}
+		}
+	}
+
+	// larger positions: default reserves, near the end of road races; one-sided oracle.
+	// DFPN has no node limit, so it only gets positions with a short forced result.
+	nbig := 40 * c.scale
+	for k := 0; k < nbig; {
+		size := 4 + c.r.Intn(2)
+		cfg := tak.Config{Size: size}
+		ps, _ := randomGame(c.r, cfg, 6+c.r.Intn(14), 4, false)
+		p := ps[len(ps)-1]
+		if over, _ := p.GameOver(); over {
+			if len(ps) < 4 {
+				continue
+			}
+			p = ps[len(ps)-2-c.r.Intn(2)]
+		}
+		b1, b2 := 300000, 600000
+		w3, _ := forcedWin(p, p.ToMove(), 3, &b1)
+		l4 := false
+		if !w3 {
+			l4, _ = forcedWin(p, p.ToMove().Flip(), 4, &b2)
+		}
+		var j *c06job
+		if (w3 || l4) && c.r.Intn(3) != 0 {
+			j = c.c06dfpnJob(p, nil)
+			if j.entries < 1024 {
+				j.entries = 1024
+			}
+			c.stat("big_dfpn", 1)
+		} else {
+			j = c.c06pnJob(p, nil)
+			if j.maxNodes == 0 || j.maxNodes > 5000 {
+				j.maxNodes = 5000
+			}
+			c.stat("big_pn", 1)
+		}
+		if w3 {
+			c.stat("big_mover_wins_within_3", 1)
+		} else if l4 {
+			c.stat("big_mover_loses_within_4", 1)
+		} else {
+			c.stat("big_undecided_within_4", 1)
+		}
+		j.modelOK = false
+		jobs = append(jobs, j)
+		k++
+	}
+	c06runJobs(c, jobs)
+}
+
+func c06runJobs(c *ctx, jobs []*c06job) {
+	t0 := time.Now()
+	if os.Getenv("C06_TIMING") != "" {
+		for _, j := range jobs {
+			done := make(chan bool, 1)
+			t := time.Now()
+			go func(j *c06job) { j.run(); done <- true }(j)
+			select {
+			case <-done:
+				if d := time.Since(t); d > 300*time.Millisecond {
+					fmt.Fprintf(os.Stderr, "SLOW %v size %d move %d %s\n", d, j.root.Size(), j.root.MoveNumber(), j.input()[len(j.input())-20:])
+				}
+			case <-time.After(3 * time.Second):
+				fmt.Fprintf(os.Stderr, "TIMEOUT size %d move %d gi %d %s pn2=%v\n", j.root.Size(), j.root.MoveNumber(), j.gi, j.input()[len(j.input())-20:], j.pn2)
+			}
+		}
+		return
+	}
+	var wg sync.WaitGroup
+	ch := make(chan *c06job, len(jobs))
+	for _, j := range jobs {
+		ch <- j
+	}
+	close(ch)
+	for w := 0; w < 12; w++ {
+		wg.Add(1)
+		go func() {
+			defer wg.Done()
+			for j := range ch {
+				j.run()
+			}
+		}()
+	}
+	wg.Wait()
+	samples := 0
+	for _, j := range jobs {
+		for _, l := range j.out {
+			c.printf("%s\n", l)
+			if samples < 6 && strings.HasPrefix(l, "CASE ") && c.r.Intn(20) == 0 {
+				samples++
+				fs := strings.Split(l[5:], " | ")
+				in := strings.Split(fs[0], ";")
+				c.printf("SAMPLE %s size %s cfg [%s] -> %s ; numbers %s\n", in[0], strings.SplitN(in[1], " ", 2)[0], in[2], fs[1], fs[2])
+			}
+		}
+		for k, v := range j.stats {
+			c.stat(k, v)
+		}
+		c.stat("runs_"+j.kind, 1)
+		if j.pn2 {
+			c.stat("runs_pn2", 1)
+		}
+		if j.kind == "dfpn" {
+			c.stat(fmt.Sprintf("dfpn_table_%d", j.entries), 1)
+			c.stat("dfpn_attacker_"+attStr(j.attacker), 1)
+		}
+		c.stat(fmt.Sprintf("root_size_%d", j.root.Size()), 1)
+	}
+	c.stat("solver_ms", int64(time.Since(t0)/time.Millisecond))
+}
+
+// ---------- replay / probe ----------
+
+// c06parse rebuilds a job from the input field of a CASE / ORACLE-FAIL line.
+func c06parse(in string) (*c06job, error) {
+	fs := strings.Split(in, ";")
+	if len(fs) != 3 {
+		return nil, fmt.Errorf("bad input")
+	}
+	p, err := decPosition(strings.TrimSpace(fs[1]))
+	if err != nil {
+		return nil, err
+	}
+	w := strings.Fields(fs[2])
+	j := &c06job{kind: strings.TrimSpace(fs[0]), root: p}
+	if j.kind == "pn" {
+		mn, _ := strconv.ParseUint(w[0], 10, 64)
+		j.maxNodes = mn
+		j.preserve = w[1] == "1"
+		j.maxDepth, _ = strconv.Atoi(w[2])
+		j.pn2 = len(w) > 3 && w[3] == "pn2"
+	} else {
+		j.entries, _ = strconv.Atoi(w[0])
+		switch w[1] {
+		case "W":
+			j.attacker = tak.White
+		case "B":
+			j.attacker = tak.Black
+		}
+	}
+	return j, nil
+}
+
+// decPosition: inverse of enc (common.go) through FromSquares.
+func decPosition(s string) (*tak.Position, error) {
+	w := strings.Fields(s)
+	if len(w) != 14 {
+		return nil, fmt.Errorf("bad position")
+	}
+	u := func(i int) uint64 { v, _ := strconv.ParseUint(w[i], 10, 64); return v }
+	size := int(u(0))
+	white, black, standing, caps := u(7), u(8), u(9), u(10)
+	hs := strings.Split(w[11], ",")
+	ss := strings.Split(w[12], ",")
+	board := make([][]tak.Square, size)
+	wst, wcp := int(u(2)), int(u(3))
+	for y := 0; y < size; y++ {
+		board[y] = make([]tak.Square, size)
+		for x := 0; x < size; x++ {
+			i := uint(x + y*size)
+			h, _ := strconv.Atoi(hs[i])
+			if h == 0 {
+				continue
+			}
+			st, _ := strconv.ParseUint(ss[i], 10, 64)
+			sq := make(tak.Square, h)
+			col := tak.White
+			if black&(1<<i) != 0 {
+				col = tak.Black
+			}
+			kind := tak.Flat
+			if standing&(1<<i) != 0 {
+				kind = tak.Standing
+			} else if caps&(1<<i) != 0 {
+				kind = tak.Capstone
+			}
+			sq[0] = tak.MakePiece(col, kind)
+			if col == tak.White {
+				if kind == tak.Capstone {
+					wcp++
+				} else {
+					wst++
+				}
+			}
+			for k := 1; k < h; k++ {
+				cc := tak.White
+				if st&(1<<uint(k-1)) != 0 {
+					cc = tak.Black
+				} else {
+					wst++
+				}
+				sq[k] = tak.MakePiece(cc, tak.Flat)
+			}
+			board[y][x] = sq
+		}
+	}
+	_ = white
+	mv, _ := strconv.Atoi(w[6])
+	p, err := tak.FromSquares(tak.Config{Size: size, Pieces: wst, Capstones: wcp, BlackWinsTies: w[1] == "1"}, board, mv)
+	if err != nil {
+		return nil, err
+	}
+	if enc(p) != strings.Join(w, " ") {
+		return nil, fmt.Errorf("position does not round-trip: %s", enc(p))
+	}
+	return p, nil
+}
+
+func c06replay(c *ctx) {
+	if len(c.args) < 1 {
+		fmt.Fprintln(os.Stderr, "replay file needed")
+		os.Exit(2)
+	}
+	raw, err := os.ReadFile(c.args[0])
+	if err != nil {
+		fmt.Fprintln(os.Stderr, err)
+		os.Exit(2)
+	}
+	var data struct {
+		Input string `json:"input"`
+	}
+	if err := json.Unmarshal(raw, &data); err != nil {
+		fmt.Fprintln(os.Stderr, err)
+		os.Exit(2)
+	}
+	j, err := c06parse(data.Input)
+	if err != nil {
+		fmt.Fprintln(os.Stderr, "cannot parse replay input:", err)
+		os.Exit(2)
+	}
+	c06single(c, j)
+}
+
+func c06single(c *ctx, j *c06job) {
+	// solve the graph reachable from this root alone when it is small enough
+	j.g = buildRetro(j.root, 6000000, 0)
+	j.modelOK = true
+	j.run()
+	for _, l := range j.out {
+		c.printf("%s\n", l)
+	}
+	c.printf("SAMPLE result: %s | %s\n", j.l1, j.l2)
+	if j.g != nil {
+		for a, nm := range []string{"White", "Black"} {
+			c.printf("SAMPLE truth: attacker %s least winning bound %d (-1 = no forced win); graph of %d positions\n", nm, j.g.dist[a][0], len(j.g.term))
+		}
+	}
+}
+
+func c06probe(c *ctx) {
+	if c.args[0] == "late" {
+		size, _ := strconv.Atoi(c.args[1])
+		left, _ := strconv.Atoi(c.args[2])
+		for k := 0; k < 12; k++ {
+			ps, _ := randomGame(c.r, tak.Config{Size: size}, 200, c.r.Intn(6), false)
+			var p *tak.Position
+			for _, q := range ps {
+				ws, wc, bs, bc := tak.VerifReserves(q)
+				if over, _ := q.GameOver(); !over && int(ws)+int(wc) <= left && int(bs)+int(bc) <= left {
+					p = q
+					break
+				}
+			}
+			if p == nil {
+				continue
+			}
+			t0 := time.Now()
+			g := buildRetro(p, 3000000, 0)
+			if g == nil {
+				fmt.Fprintf(os.Stderr, "ply %d: > 3M (%v)\n", p.MoveNumber(), time.Since(t0))
+				continue
+			}
+			fmt.Fprintf(os.Stderr, "ply %d: nodes %d edges %d root W %d B %d %v\n", p.MoveNumber(), len(g.term), g.edges, g.dist[0][0], g.dist[1][0], time.Since(t0))
+		}
+		return
+	}
+	sz, _ := strconv.Atoi(c.args[0])
+	pc, _ := strconv.Atoi(c.args[1])
+	cp, _ := strconv.Atoi(c.args[2])
+	t0 := time.Now()
+	g := buildRetro(tak.New(tak.Config{Size: sz, Pieces: pc, Capstones: cp}), 50000000, 0)
+	if g == nil {
+		fmt.Fprintln(os.Stderr, "too big")
+		return
+	}
+	mx := [2]int32{}
+	in := [2]int{}
+	for a := 0; a < 2; a++ {
+		for _, d := range g.dist[a] {
+			if d >= 0 {
+				in[a]++
+			}
+			if d > mx[a] {
+				mx[a] = d
+			}
+		}
+	}
+	fmt.Fprintf(os.Stderr, "size %d pieces %d caps %d: nodes %d edges %d  attractor W %d (max %d) B %d (max %d) root W %d B %d  %v\n",
+		sz, pc, cp, len(g.term), g.edges, in[0], mx[0], in[1], mx[1], g.dist[0][0], g.dist[1][0], time.Since(t0))
 }
